@@ -136,7 +136,7 @@ def count_paths(
     work = [start]
 
     def callee_counts(n: Node) -> Optional[Dict[Tuple, FrozenSet[int]]]:
-        if not interproc or _depth > 8:
+        if not interproc or _depth > 8 or n.inlined is not None:
             return None
         cal = None
         if n.op == "await" and n.awaited is not None and n.awaited.kind == "pkg":
